@@ -65,6 +65,16 @@ def run(ctx):
               "vRecur.to_ical must emit parts in self.sorted_items() order "
               "(canonical_order), not insertion order", ti.loc(),
               detail="for key, vals in self.sorted_items()")
+    # every part of the mapping is emitted: the append is unconditional
+    for lp in loops:
+        apps = [st for st in lp.body if isinstance(st, ast.Expr)
+                and isinstance(st.value, ast.Call) and isinstance(st.value.func, ast.Attribute)
+                and st.value.func.attr == "append"]
+        skips = [n for n in ast.walk(lp) if isinstance(n, (ast.Continue, ast.Break))]
+        ctx.check(len(apps) == 1 and not skips, "C19/ORDER", "to_ical emits every part",
+                  "the loop over the rule parts skips some parts (continue/break or a "
+                  "conditional append): e.g. a truthiness test drops BYHOUR=0",
+                  ti.loc(lp), witness="r['byhour'] = 0", detail="one unconditional append per part")
     # sorted_items not overridden away from canonsort
     ctx.check("sorted_items" not in vr.methods and "sorted_keys" not in vr.methods,
               "C19/ORDER", "sorted_items inherited", "vRecur overrides the "
@@ -95,6 +105,22 @@ def run(ctx):
               f"to_ical and parse_type must look the part codec up in the same "
               f"table with the same default (writer default {dw}, reader {dr})",
               pt.loc(), detail=f"both use .types.get(key, {dw})")
+    # parse_type: one decoded value per split item, in order
+    prets = [n for n in walk_no_nested(pt.node) if isinstance(n, ast.Return)]
+    okp = False
+    if len(prets) == 1 and isinstance(prets[0].value, ast.ListComp):
+        lc = prets[0].value
+        g = lc.generators[0]
+        okp = (len(lc.generators) == 1 and not g.ifs and isinstance(lc.elt, ast.Call)
+               and isinstance(lc.elt.func, ast.Attribute) and lc.elt.func.attr == "from_ical"
+               and len(lc.elt.args) == 1 and isinstance(lc.elt.args[0], ast.Name)
+               and isinstance(g.target, ast.Name) and lc.elt.args[0].id == g.target.id
+               and isinstance(g.iter, ast.Call) and isinstance(g.iter.func, ast.Attribute)
+               and g.iter.func.attr == "split")
+    ctx.check(okp, "C19/TYPES", "parse_type keeps every value",
+              "parse_type must return exactly one decoded value per comma-separated "
+              "item, in order (no filtering / de-duplication: BYMONTH=5,5L are two values)",
+              pt.loc(), witness="BYMONTH=5,5L", detail="[parser.from_ical(v) for v in values.split(',')]")
     for part, kind in rfc.RECUR_PARTS.items():
         want = rfc.RECUR_KIND_CLASS[kind]
         got = types.get(part)
